@@ -217,6 +217,21 @@ EXC_CHILDREN = {
 }
 
 
+class PProperty:
+    """@property on an interpreted class"""
+
+    def __init__(self, fget):
+        self.fget = fget
+
+    def setter(self, fn):
+        return self
+
+
+class PStatic:
+    def __init__(self, fn):
+        self.fn = fn
+
+
 class StubModule:
     def __init__(self, name, attrs):
         self._name = name
@@ -416,6 +431,7 @@ class Interp:
             "NotImplemented": NotImplemented, "divmod": divmod,
             "float": float, "frozenset": frozenset, "print": lambda *a, **k: None,
             "complex": complex, "bytes": bytes, "object": object,
+            "property": PProperty, "staticmethod": PStatic,
             "slice": slice, "round": round, "pow": pow, "callable": callable,
             "bin": bin, "hex": hex, "oct": oct, "ascii": ascii,
             "bytearray": bytearray,
@@ -536,6 +552,10 @@ class Interp:
             v = obj.cls.lookup(attr)
             if v is None:
                 raise PRaise("AttributeError", (f"{obj.cls.name}.{attr}",))
+            if isinstance(v, PProperty):
+                return self.call(v.fget, [obj], {})
+            if isinstance(v, PStatic):
+                return v.fn
             if isinstance(v, PFunc):
                 return BoundMethod(v, obj)
             return v
@@ -933,7 +953,14 @@ class Interp:
                                owner=cls)
                     fn.decorators = [ast.unparse(d)
                                      for d in sub.decorator_list]
-                    cenv.vars[sub.name] = fn
+                    if "property" in fn.decorators:
+                        cenv.vars[sub.name] = PProperty(fn)
+                    elif "staticmethod" in fn.decorators:
+                        cenv.vars[sub.name] = PStatic(fn)
+                    elif any(d.endswith(".setter") for d in fn.decorators):
+                        pass  # keep the getter
+                    else:
+                        cenv.vars[sub.name] = fn
                 elif isinstance(sub, ast.Expr) and isinstance(
                         sub.value, ast.Constant):
                     continue
